@@ -380,11 +380,14 @@ static std::string checkScalar(Tc& tc, uint32_t cp, Sum& sum) {
 static void laneScalar(const Req& q, Sum& sum) {
     const TcDesc* d = findTc(get(q, "tc")); if (!d) { sum.fail("lane=scalar\ttc=" + get(q, "tc"), "unknown transcoder"); return; }
     Tc tc(d); if (!tc.t) { sum.fail("lane=scalar\ttc=" + std::string(d->name), "makeNewTranscoderFor returned null"); return; }
-    long w = geti(q, "worker", 0), nw = geti(q, "nworkers", 1);
-    Sub& s = sum.subs[std::string("scalar:") + d->name]; s.exhaustive = true;
+    long w = geti(q, "worker", 0), nw = geti(q, "nworkers", 1); bool thorough = get(q, "tier", "quick") == "thorough"; unsigned phase = (unsigned)geti(q, "seed", 1) % 4;
+    // thorough: every scalar value.  quick: every scalar value below U+3000 and in U+D700..U+FFFF and the 64 values around each plane
+    // boundary, plus a 1/4 stride of the rest whose phase is taken from VERIF_SEED (four seeds cover everything)
+    Sub& s = sum.subs[std::string("scalar:") + d->name + (thorough ? "" : "(all of U+0000..2FFF, U+D700..FFFF, plane edges; 1/4 stride elsewhere)")]; s.exhaustive = thorough;
     for (uint32_t cp = 0; cp <= 0x10FFFF; cp++) {
         if (isSurr(cp)) continue;
         if ((long)(cp % nw) != w) continue;
+        if (!thorough && cp >= 0x3000 && !(cp >= 0xD700 && cp <= 0xFFFF) && (cp & 0xFFFF) >= 0x40 && (cp & 0xFFFF) < 0xFFC0 && (cp / (uint32_t)nw) % 4 != phase) continue;
         std::string why = checkScalar(tc, cp, sum);
         s.eval++; if (cp >= 0x80 || d->ebcdic) s.nontriv++;
         if (!why.empty()) sum.fail("lane=scalar\ttc=" + std::string(d->name) + "\tcp=" + hx(cp), why);
@@ -436,6 +439,7 @@ static void laneUtf8(const Req& q, Sum& sum) {
     uint8_t s[4]; bool wf; unsigned long idx = 0;
     // boundary values for the sampled positions + seed dependent extras
     std::vector<int> B; { static const int b[] = {0x00, 0x41, 0x7F, 0x80, 0x8F, 0x90, 0x9F, 0xA0, 0xBF, 0xC0, 0xC2, 0xE0, 0xED, 0xF4, 0xFF}; B.assign(b, b + 15); B.push_back((int)((seed * 2654435761u) >> 24) & 0xFF); }
+    std::vector<int> B8; { static const int b[] = {0x00, 0x41, 0x7F, 0x80, 0xBF, 0xC0, 0xFF}; B8.assign(b, b + 7); B8.push_back(B.back()); }   // trail-byte boundaries + one seed dependent value
     if (part.find('1') != std::string::npos) {
         Sub& s1 = sum.subs["utf8:len1"]; s1.exhaustive = true;
         Sub& s2 = sum.subs["utf8:len2"]; s2.exhaustive = true;
@@ -443,23 +447,24 @@ static void laneUtf8(const Req& q, Sum& sum) {
         for (int a = 0; a < 256; a++) for (int b = 0; b < 256; b++) { if ((idx++ % nw) != (unsigned long)w) continue; s[0] = a; s[1] = b; std::string why = checkUtf8(tc, s, 2, sum, wf); s2.eval++; if ((a | b) >= 0x80) s2.nontriv++; sum.labels[wf ? "utf8:well-formed" : "utf8:ill-formed"]++; if (!why.empty()) sum.fail("lane=utf8\ttc=UTF-8\tsrc=" + hexB(s, 2), why); }
     }
     if (part.find('3') != std::string::npos) {
-        Sub& s3 = sum.subs[thorough ? "utf8:len3" : "utf8:len3(b0,b1 exhaustive; b2 in 16 boundary values)"]; s3.exhaustive = thorough;
+        Sub& s3 = sum.subs[thorough ? "utf8:len3" : "utf8:len3(b0,b1 exhaustive; b2 in 8 boundary values)"]; s3.exhaustive = thorough;
         for (int a = 0; a < 256; a++) for (int b = 0; b < 256; b++) {
             if ((idx++ % nw) != (unsigned long)w) continue;
-            size_t nc = thorough ? 256 : B.size();
-            for (size_t k = 0; k < nc; k++) { int c = thorough ? (int)k : B[k]; s[0] = a; s[1] = b; s[2] = c; std::string why = checkUtf8(tc, s, 3, sum, wf); s3.eval++; if ((a | b | c) >= 0x80) s3.nontriv++; sum.labels[wf ? "utf8:well-formed" : "utf8:ill-formed"]++; if (!why.empty()) sum.fail("lane=utf8\ttc=UTF-8\tsrc=" + hexB(s, 3), why); }
+            size_t nc = thorough ? 256 : B8.size();
+            for (size_t k = 0; k < nc; k++) { int c = thorough ? (int)k : B8[k]; s[0] = a; s[1] = b; s[2] = c; std::string why = checkUtf8(tc, s, 3, sum, wf); s3.eval++; if ((a | b | c) >= 0x80) s3.nontriv++; sum.labels[wf ? "utf8:well-formed" : "utf8:ill-formed"]++; if (!why.empty()) sum.fail("lane=utf8\ttc=UTF-8\tsrc=" + hexB(s, 3), why); }
         }
     }
     if (part.find('4') != std::string::npos) {
         // 4-byte space: lead F0..FF x second byte exhaustive x (third, fourth) from boundary values (quick) /
         // lead F0..F4 x second x third exhaustive x fourth from boundary values + F5..FF structured (thorough)
-        Sub& s4 = sum.subs[thorough ? "utf8:len4(lead,b1,b2 exhaustive for F0..F4; b3 boundary)" : "utf8:len4(lead,b1 exhaustive; b2,b3 boundary)"]; s4.exhaustive = false;
-        for (int a = 0xE0; a < 256; a++) for (int b = 0; b < 256; b++) {
+        Sub& s4 = sum.subs[thorough ? "utf8:len4(lead,b1,b2 exhaustive for F0..F4; b3 boundary)" : "utf8:len4(lead F0..FF,b1 exhaustive; b2,b3 in 8 boundary values)"]; s4.exhaustive = false;
+        const std::vector<int>& T = thorough ? B : B8;      // values for the sampled trail positions
+        for (int a = thorough ? 0xE0 : 0xF0; a < 256; a++) for (int b = 0; b < 256; b++) {
             if ((idx++ % nw) != (unsigned long)w) continue;
             bool full = thorough && a >= 0xF0 && a <= 0xF4;
-            size_t nc = full ? 256 : B.size();
-            for (size_t k = 0; k < nc; k++) for (size_t l = 0; l < B.size(); l++) {
-                s[0] = a; s[1] = b; s[2] = full ? (int)k : B[k]; s[3] = B[l];
+            size_t nc = full ? 256 : T.size();
+            for (size_t k = 0; k < nc; k++) for (size_t l = 0; l < T.size(); l++) {
+                s[0] = a; s[1] = b; s[2] = full ? (int)k : T[k]; s[3] = T[l];
                 std::string why = checkUtf8(tc, s, 4, sum, wf); s4.eval++; s4.nontriv++; sum.labels[wf ? "utf8:well-formed" : "utf8:ill-formed"]++;
                 if (!why.empty()) sum.fail("lane=utf8\ttc=UTF-8\tsrc=" + hexB(s, 4), why);
             }
